@@ -91,6 +91,26 @@ func POBundle(msgs []*ast.MsgNode) (b soymsg.Bundle, ok bool) {
 	return b, b != nil
 }
 
+// POProvider loads the repository's PO provider with catalogues for "en" and "fr" made from the
+// messages (nil if none is representable): lookups of en_US, en_GB, fr_CA, de ... then take the
+// provider's fallback paths.
+func POProvider(msgs []*ast.MsgNode) (p soymsg.Provider) {
+	defer func() {
+		if recover() != nil {
+			p = nil
+		}
+	}()
+	text := POText(msgs)
+	if !strings.Contains(text, "#: id=") {
+		return nil
+	}
+	prov, err := pomsg.Load(memOpener{map[string]string{"en": text, "fr": strings.ReplaceAll(text, "Language: en", "Language: fr")}}, []string{"en", "fr"})
+	if err != nil {
+		return nil
+	}
+	return prov
+}
+
 // KindPO selects the real pomsg bundle in Catalogue.
 const KindPO = int(NumBundleKinds)
 
